@@ -354,3 +354,436 @@ pub fn gen_node(seed: u64, tier: &Tier, shard: usize, nshards: usize, emit: &mut
         }
     }
 }
+
+// ------------------------------------------------------------------------------------------------
+// wire suite
+
+fn rand_string_any(rng: &mut Rng, len: usize) -> String {
+    let c = rng.next();
+    rand_string(rng, len, c)
+}
+
+fn rand_string(rng: &mut Rng, len: usize, class: u64) -> String {
+    // class 0: constant, 1: ascii text, 2: random 7-bit, 3: multi-byte mix
+    let mut s = String::with_capacity(len + 4);
+    match class % 4 {
+        0 => {
+            while s.len() < len {
+                s.push('a');
+            }
+        }
+        1 => {
+            let words = ["node", "key", "value", "-", "_", "0", "1", "indexer", "searcher", "grpc", ":"];
+            while s.len() < len {
+                s.push_str(words[rng.below(words.len() as u64) as usize]);
+            }
+        }
+        2 => {
+            while s.len() < len {
+                s.push((rng.below(95) as u8 + 32) as char);
+            }
+        }
+        _ => {
+            let chars = ['a', 'é', '😀', 'z', 'ß', '0', '語'];
+            while s.len() < len {
+                s.push(chars[rng.below(chars.len() as u64) as usize]);
+            }
+        }
+    }
+    // cut back to exactly `len` bytes on a char boundary (pad with ascii if needed)
+    while s.len() > len {
+        s.pop();
+    }
+    while s.len() < len {
+        s.push('x');
+    }
+    s
+}
+
+const LEN_CLASSES: [usize; 12] = [0, 1, 2, 7, 40, 255, 256, 1000, 16383, 16384, 16385, 40000];
+
+fn rand_len(rng: &mut Rng, big_ok: bool) -> usize {
+    if big_ok && rng.chance(1, 12) {
+        LEN_CLASSES[rng.below(LEN_CLASSES.len() as u64) as usize]
+    } else {
+        LEN_CLASSES[rng.below(7) as usize]
+    }
+}
+
+fn rand_u64(rng: &mut Rng) -> u64 {
+    match rng.below(6) {
+        0 => 0,
+        1 => u64::MAX,
+        2 => rng.below(10),
+        3 => rng.below(1 << 20),
+        _ => rng.next(),
+    }
+}
+
+fn rand_id(rng: &mut Rng, max_id_len: usize) -> ChitchatId {
+    let len = if max_id_len >= 65535 && rng.chance(1, 25) { 65535 } else { rand_len(rng, max_id_len > 20000).min(max_id_len) };
+    let node_id = rand_string_any(rng, len);
+    let addr: SocketAddr = if rng.chance(1, 3) {
+        let mut o = [0u8; 16];
+        for b in o.iter_mut() {
+            *b = rng.next() as u8;
+        }
+        SocketAddr::from((o, rng.next() as u16))
+    } else {
+        SocketAddr::from(([rng.next() as u8, rng.next() as u8, rng.next() as u8, rng.next() as u8], rng.next() as u16))
+    };
+    ChitchatId::new(node_id, rand_u64(rng), addr)
+}
+
+fn p_digest_entries(entries: &[(ChitchatId, u64, u64, u64)]) -> String {
+    plist(
+        "dg",
+        entries.iter().map(|(id, hb, gc, mx)| plist("d", [p_id(id), hb.to_string(), gc.to_string(), mx.to_string()])),
+    )
+}
+
+/// A list of ops that a `DeltaBuilder` accepts: distinct members, strictly increasing versions.
+fn rand_ops(rng: &mut Rng, nmembers: usize, big_ok: bool) -> Vec<String> {
+    let mut ops = Vec::new();
+    let mut used: Vec<ChitchatId> = Vec::new();
+    for _ in 0..nmembers {
+        let id = rand_id(rng, 300);
+        if used.contains(&id) {
+            continue;
+        }
+        used.push(id.clone());
+        ops.push(plist("opn", [p_id(&id), rand_u64(rng).to_string(), rand_u64(rng).to_string()]));
+        match rng.below(5) {
+            0 => {}
+            1 => ops.push(plist("opm", [rand_u64(rng).to_string()])),
+            _ => {
+                let n = rng.range(1, 6);
+                let mut v = rng.below(5);
+                for _ in 0..n {
+                    v += 1 + rng.below(3);
+                    let st = rng.below(3) as u8;
+                    let kl = rand_len(rng, false).min(300);
+                    let vl = if st == 1 { 0 } else { rand_len(rng, big_ok) };
+                    let kv = VKv { key: rand_string_any(rng, kl), value: rand_string_any(rng, vl), version: v, status: st };
+                    ops.push(plist("opk", [p_kvm(&kv)]));
+                }
+            }
+        }
+    }
+    ops
+}
+
+fn enc_op_bytes(op: &str) -> Vec<u8> {
+    use chitchat::Serializable;
+    // (opn id gc from) | (opk (m k v ver st)) | (opm v)
+    let sx = crate::sexp::parse(op).unwrap();
+    let mut b = Vec::new();
+    match sx.head().unwrap() {
+        "opn" => {
+            let l = sx.tagged("opn").unwrap();
+            b.push(0);
+            r_id(&l[0]).unwrap().serialize(&mut b);
+            l[1].nat().unwrap().serialize(&mut b);
+            l[2].nat().unwrap().serialize(&mut b);
+        }
+        "opk" => {
+            let f = sx.tagged("opk").unwrap()[0].tagged("m").unwrap().to_vec();
+            b.push(1);
+            f[0].string().unwrap().serialize(&mut b);
+            f[1].string().unwrap().serialize(&mut b);
+            f[2].nat().unwrap().serialize(&mut b);
+            b.push(f[3].nat().unwrap() as u8);
+        }
+        _ => {
+            b.push(2);
+            sx.tagged("opm").unwrap()[0].nat().unwrap().serialize(&mut b);
+        }
+    }
+    b
+}
+
+/// Wraps raw op bytes into a block stream with the real writer and prefixes a message header.
+fn stream_message(tag: u8, digest: Option<&[(ChitchatId, u64, u64, u64)]>, ops: &[Vec<u8>], thr: u16) -> Vec<u8> {
+    use chitchat::Serializable;
+    let mut msg = vec![0x53, 0xB0, 0, tag];
+    if let Some(d) = digest {
+        let dg = chitchat::verif::digest_from_parts(
+            d.iter()
+                .map(|(id, hb, gc, mx)| chitchat::verif::VNodeDigest { chitchat_id: id.clone(), heartbeat: *hb, last_gc_version: *gc, max_version: *mx })
+                .collect(),
+        );
+        dg.serialize(&mut msg);
+    }
+    let mut w = chitchat::verif::VStreamWriter::with_block_threshold(thr);
+    for op in ops {
+        if !op.is_empty() && op.len() <= 65535 {
+            w.append(op);
+        }
+    }
+    msg.extend(w.finish());
+    msg
+}
+
+pub fn gen_wire(seed: u64, tier: &Tier, shard: usize, nshards: usize, emit: &mut dyn FnMut(String)) {
+    let ncases = if tier.thorough { 6000 } else { 480 };
+    for i in 0..ncases {
+        if i % nshards != shard {
+            continue;
+        }
+        let mut rng = Rng::new(seed ^ ((i as u64) << 18) ^ 0x31BE);
+        emit(format!("(case wire-{i})"));
+        // a node that receives the structure-aware datagrams
+        emit(new_cmd(0, &node_id(1), "c", 100, DEFAULT_FD, "(pred none)", &[("k", "v")]));
+        let nmem = match rng.below(10) {
+            0 => 0,
+            1 => 1,
+            2..=6 => rng.range(2, 12),
+            7 | 8 => rng.range(13, 60),
+            _ => {
+                if tier.thorough { rng.range(500, 2000) } else { rng.range(100, 300) }
+            }
+        } as usize;
+        let mut entries: Vec<(ChitchatId, u64, u64, u64)> = Vec::new();
+        for _ in 0..nmem {
+            let id = rand_id(&mut rng, if nmem <= 3 { 65535 } else { 300 });
+            if entries.iter().any(|e| e.0 == id) {
+                continue;
+            }
+            entries.push((id, rand_u64(&mut rng), rand_u64(&mut rng), rand_u64(&mut rng)));
+        }
+        entries.sort_by(|a, b| a.0.cmp(&b.0));
+        let cluster_len = rand_len(&mut rng, true);
+        let cluster = rand_string_any(&mut rng, cluster_len);
+        let kind = ["syn", "synack", "ack", "synack", "ack", "badcluster"][rng.below(6) as usize];
+        let nm = rng.below(5) as usize;
+        let ops = rand_ops(&mut rng, nm, true);
+        let thr = [16384u64, 100, 1000, 7, 65535, 16385][rng.below(6) as usize];
+        emit(plist(
+            "wirecase",
+            [kind.to_string(), hex(cluster.as_bytes()), p_digest_entries(&entries), plist("", ops.iter()), thr.to_string()],
+        ));
+        // malformed variants: mutate the bytes of a structurally valid stream
+        let small_entries: Vec<_> = entries.iter().take(3).cloned().collect();
+        let op_bytes: Vec<Vec<u8>> = ops.iter().map(|o| enc_op_bytes(o)).collect();
+        let tag = [1u8, 2u8][rng.below(2) as usize];
+        let base = stream_message(tag, if tag == 1 { Some(&small_entries) } else { None }, &op_bytes, 16384);
+        if base.len() < 20_000 {
+            for _ in 0..6 {
+                let mut m = base.clone();
+                match rng.below(6) {
+                    0 => {
+                        let cut = rng.below(m.len() as u64 + 1) as usize;
+                        m.truncate(cut);
+                    }
+                    1 => {
+                        let pos = rng.below(m.len() as u64) as usize;
+                        m[pos] ^= 1 << rng.below(8);
+                    }
+                    2 => {
+                        let pos = rng.below(m.len() as u64) as usize;
+                        m[pos] = rng.next() as u8;
+                    }
+                    3 => {
+                        let pos = rng.below(m.len() as u64 + 1) as usize;
+                        m.insert(pos, rng.next() as u8);
+                    }
+                    4 => {
+                        for _ in 0..rng.range(1, 8) {
+                            let pos = rng.below(m.len() as u64) as usize;
+                            m[pos] = rng.next() as u8;
+                        }
+                    }
+                    _ => {
+                        m = (0..rng.range(0, 64)).map(|_| rng.next() as u8).collect();
+                        if rng.chance(1, 2) && m.len() >= 4 {
+                            m[0] = 0x53;
+                            m[1] = 0xB0;
+                            m[2] = 0;
+                            m[3] = rng.below(5) as u8;
+                        }
+                    }
+                }
+                emit(plist("dec", [hex(&m)]));
+            }
+        }
+        // structure-aware: syntactically valid ops in semantically arbitrary order
+        for _ in 0..4 {
+            let mut pool: Vec<String> = Vec::new();
+            let known = [node_id(1), node_id(2), node_id(3)];
+            for _ in 0..rng.range(1, 7) {
+                let id = known[rng.below(3) as usize].clone();
+                match rng.below(4) {
+                    0 => pool.push(plist("opn", [p_id(&id), rng.below(8).to_string(), rng.below(8).to_string()])),
+                    1 | 2 => {
+                        let st = rng.below(3) as u8;
+                        let key = ["a", "b", "é", "", "😀k"][rng.below(5) as usize];
+                        let kv = VKv { key: key.to_string(), value: if st == 1 { String::new() } else { "v".to_string() }, version: rng.below(9), status: st };
+                        pool.push(plist("opk", [p_kvm(&kv)]));
+                    }
+                    _ => pool.push(plist("opm", [rng.below(9).to_string()])),
+                }
+            }
+            let bytes: Vec<Vec<u8>> = pool.iter().map(|o| enc_op_bytes(o)).collect();
+            let tag = [1u8, 2u8][rng.below(2) as usize];
+            let dg: Vec<(ChitchatId, u64, u64, u64)> = known.iter().skip(1).map(|id| (id.clone(), rng.range(1, 9), 0, 0)).collect();
+            let m = stream_message(tag, if tag == 1 { Some(&dg) } else { None }, &bytes, 16384);
+            emit(plist("datagram", ["0".to_string(), hex(&m)]));
+        }
+    }
+}
+
+// ------------------------------------------------------------------------------------------------
+// mtu suite
+
+/// Boundary-directed reply-size cases: one other member with near-incompressible values; the own
+/// digest is padded so that the room for the delta ends 0..3 bytes short of / exactly at / a few
+/// bytes beyond an op boundary.
+fn gen_mtu_boundary(seed: u64, tier: &Tier, shard: usize, nshards: usize, emit: &mut dyn FnMut(String)) {
+    let ncases = if tier.thorough { 400 } else { 48 };
+    for i in 0..ncases {
+        if i % nshards != shard {
+            continue;
+        }
+        let mut rng = Rng::new(seed ^ ((i as u64) << 19) ^ 0xB0DE);
+        emit(format!("(case mtu-b{i})"));
+        let me = node_id(1);
+        let selfval = rand_string(&mut rng, 64, 2);
+        emit(new_cmd(0, &me, "c", 100, DEFAULT_FD, "(pred none)", &[("self", &selfval)]));
+        let m0 = ChitchatId::new("member-0".to_string(), 0, SocketAddr::from(([10, 0, 0, 1], 7000)));
+        let nk = rng.range(1, 4);
+        let mut kvs = Vec::new();
+        for k in 0..nk {
+            let vl = rng.range(12, 40) as usize;
+            kvs.push((format!("k{k}"), rand_string(&mut rng, vl, 2), k + 2, 0u8, 0u64));
+        }
+        let copy = PCopy { heartbeat: 7, last_gc: 0, max_version: nk + 1, kvs: kvs.clone() };
+        emit(plist("setcopyq", ["0".to_string(), p_id(&m0), p_pcopy(&copy)]));
+        let id_len = |id: &ChitchatId| 2 + id.node_id.len() + 8 + 7;
+        let entry_len = |id: &ChitchatId| id_len(id) + 24;
+        // op sizes in emission order: self (max version 1) first, then member-0
+        let mut lens = vec![1 + id_len(&me) + 16, 1 + 2 + 4 + 2 + selfval.len() + 8 + 1, 1 + id_len(&m0) + 16];
+        for kv in &kvs {
+            lens.push(1 + 2 + kv.0.len() + 2 + kv.1.len() + 8 + 1);
+        }
+        let cut = rng.range(2, lens.len() as u64) as usize;
+        let p_cut: usize = 4 + lens[..cut].iter().sum::<usize>();
+        let delta = [0i64, 1, 2, 3, 3, 2, 1, 4, -1][rng.below(9) as usize];
+        let room = (p_cut as i64 - delta).max(100) as usize;
+        let target = 65_503usize - room;
+        let mut dlen: usize = 2 + entry_len(&me) + entry_len(&m0);
+        let mut e = 0u32;
+        while dlen + 100 <= target {
+            let id = ChitchatId::new(format!("t{e}"), 0, SocketAddr::from(([10, 9, (e / 250) as u8, (e % 250) as u8], 1)));
+            dlen += entry_len(&id);
+            emit(plist("setcopyq", ["0".to_string(), p_id(&id), "(ns 1 0 0 ())".to_string()]));
+            e += 1;
+        }
+        if target >= dlen + 41 {
+            let l = target - dlen - 41;
+            let id = ChitchatId::new("f".repeat(l), 1, SocketAddr::from(([10, 8, 0, 1], 1)));
+            emit(plist("setcopyq", ["0".to_string(), p_id(&id), "(ns 1 0 0 ())".to_string()]));
+        }
+        // the peer already knows every padding member (digest entries with max version 0 = up to date)
+        let syn = PMsg::Syn { cluster_id: "c".to_string(), digest: vec![] };
+        emit(plist("msglite", ["0".to_string(), p_msg(&syn)]));
+    }
+}
+
+pub fn gen_mtu(seed: u64, tier: &Tier, shard: usize, nshards: usize, emit: &mut dyn FnMut(String)) {
+    gen_mtu_boundary(seed, tier, shard, nshards, emit);
+    let ncases = if tier.thorough { 640 } else { 64 };
+    for i in 0..ncases {
+        if i % nshards != shard {
+            continue;
+        }
+        let mut rng = Rng::new(seed ^ ((i as u64) << 17) ^ 0x3707);
+        emit(format!("(case mtu-{i})"));
+        let me = node_id(1);
+        emit(new_cmd(0, &me, "c", 100, DEFAULT_FD, "(pred none)", &[("self", "1")]));
+        let members = match rng.below(4) {
+            0 => 1,
+            1 => rng.range(2, 5),
+            2 => rng.range(5, 15),
+            _ => rng.range(15, 40),
+        };
+        let class = rng.below(4);
+        let mut ids = Vec::new();
+        let budget_keys = if tier.thorough { 300 } else { 120 };
+        for m in 0..members {
+            let id = ChitchatId::new(format!("member-{m}-{}", { let l = rng.below(30) as usize; rand_string(&mut rng, l, 1) }), rng.below(3), SocketAddr::from(([10, 0, (m / 250) as u8, (m % 250) as u8], 7000 + m as u16)));
+            ids.push(id.clone());
+            let nkeys = match rng.below(5) {
+                0 => 0,
+                1 => rng.range(1, 3),
+                2 | 3 => rng.range(3, 20),
+                _ => rng.range(20, budget_keys),
+            };
+            let mut kvs = Vec::new();
+            let mut v = 0u64;
+            for k in 0..nkeys {
+                v += 1 + rng.below(2);
+                let st = if rng.chance(1, 8) { 1 } else if rng.chance(1, 10) { 2 } else { 0 };
+                let vl = if rng.chance(1, 40) {
+                    [16000usize, 16384, 17000, 33000, 50000, 65000][rng.below(6) as usize]
+                } else if rng.chance(1, 6) {
+                    rng.range(200, 3000) as usize
+                } else {
+                    rng.range(0, 60) as usize
+                };
+                let value = if st == 1 { String::new() } else { rand_string(&mut rng, vl, class) };
+                kvs.push((format!("key-{k:04}-{}", { let l = rng.below(12) as usize; rand_string(&mut rng, l, class) }), value, v, st as u8, 0u64));
+            }
+            let max = v + rng.below(2);
+            let gc = if rng.chance(1, 3) { rng.below(max + 1) } else { 0 };
+            kvs.sort_by(|a, b| a.0.as_bytes().cmp(b.0.as_bytes()));
+            let copy = PCopy { heartbeat: rng.range(1, 100), last_gc: gc, max_version: max, kvs };
+            emit(plist("setcopyq", ["0".to_string(), p_id(&id), p_pcopy(&copy)]));
+        }
+        // peer digests: unknown members, partially known, reset-needed
+        for _ in 0..(if tier.thorough { 3 } else { 2 }) {
+            let mut dg: Vec<(ChitchatId, u64, u64, u64)> = Vec::new();
+            for id in &ids {
+                match rng.below(4) {
+                    0 => {}
+                    1 => dg.push((id.clone(), 1, 0, 0)),
+                    _ => dg.push((id.clone(), rng.range(1, 50), rng.below(5), rng.below(40))),
+                }
+            }
+            dg.sort_by(|a, b| a.0.cmp(&b.0));
+            let sched: Vec<&ChitchatId> = ids.iter().filter(|_| rng.chance(1, 10)).collect();
+            emit(plist("mtusweep", ["0".to_string(), p_digest_entries(&dg), p_ids(sched.iter().copied())]));
+        }
+        // whole replies: the own digest is inflated with many tiny members so that the room left
+        // for the delta is small (boundary-directed: a few bytes around the 100-byte proviso)
+        if rng.chance(3, 4) {
+            let entry_len = |id: &ChitchatId| 2 + id.node_id.len() + 8 + if id.gossip_advertise_addr.is_ipv4() { 7 } else { 19 } + 24;
+            let mut dlen: usize = 2 + entry_len(&me) + ids.iter().map(|i| entry_len(i)).sum::<usize>();
+            // room = 65507 - 4 - digest_len, targeted in 90..140 (and sometimes far away)
+            let room = match rng.below(6) {
+                0 => rng.range(200, 3000) as usize,
+                1 => rng.range(60, 99) as usize,
+                _ => rng.range(96, 140) as usize,
+            };
+            let target = 65_503usize.saturating_sub(room);
+            let mut e = 0u32;
+            while dlen + 100 <= target {
+                let id = ChitchatId::new(format!("t{e}"), 0, SocketAddr::from(([10, 9, (e / 250) as u8, (e % 250) as u8], 1)));
+                dlen += entry_len(&id);
+                emit(plist("setcopyq", ["0".to_string(), p_id(&id), "(ns 1 0 0 ())".to_string()]));
+                e += 1;
+            }
+            if target >= dlen + 41 {
+                let l = target - dlen - 41;
+                let id = ChitchatId::new("f".repeat(l), 1, SocketAddr::from(([10, 8, 0, 1], 1)));
+                dlen += entry_len(&id);
+                emit(plist("setcopyq", ["0".to_string(), p_id(&id), "(ns 1 0 0 ())".to_string()]));
+            }
+            let _ = dlen;
+            let syn = PMsg::Syn { cluster_id: "c".to_string(), digest: vec![] };
+            emit(plist("msglite", ["0".to_string(), p_msg(&syn)]));
+            // and the ACK path: a SYN-ACK carrying the same (empty) digest
+            let synack = PMsg::SynAck { digest: vec![], delta: PDelta { serialized_len: 1, node_deltas: vec![] } };
+            emit(plist("msglite", ["0".to_string(), p_msg(&synack)]));
+        }
+    }
+}
